@@ -7,7 +7,10 @@ UNSUPPORTED = (15, 16, 17, 18, 19, 22, 25, 26, 27, 28, 29, 30)
 
 class C12(OutstationProp):
     id = "C12"
-    proof_targets = ["Outstation/SessionC12Proofs.vo"]
+    # gen_session_tables: dispatch, IIN2 of object errors, to_request (theorems C12_tables_*, Outstation/TablesAgree.v);
+    # the other three regenerate the tables App/Grammar.v and App/AppHeader.v are built on
+    translators = ["gen_variations", "gen_qualifiers", "gen_functions", "gen_session_tables"]
+    proof_targets = ["Outstation/SessionC12Proofs.vo", "Outstation/TablesAgree.vo"]
     property_file = "Properties/C12.v"
     rule = ("every function code 0..255 and header-flag combination with supported, unsupported, unknown and truncated "
             "object headers (one or several, only some acceptable), request sizes up to the receive buffer against "
